@@ -42,6 +42,43 @@ def run(repo: Repo, rep: Report, tier: str) -> None:
     _slots(repo, rep, c)
     _who_constructs(repo, rep, c)
     _codecs(repo, rep)
+    _helper_names(repo, rep, c)
+
+
+MAIN_DEF_SITES = ("_add_pack_method_definition", "_add_unpack_method_definition", "add_encode_method", "add_decode_method")
+
+
+def _helper_names(repo: Repo, rep: Report, c) -> None:
+    """R13.9: helper functions compiled for one field (union / literal / typed dict / named tuple / discriminator
+    helpers) are installed on the class (or attrs holder) next to the helpers of every other compilation of the same
+    class -- one per dialect and per format.  Their names must therefore contain a token that is fresh per compilation
+    (random_hex / uuid); a name derived only from class, field, format and type arguments is overwritten by the next
+    dialect's compilation while the earlier dialect's methods still call it by name."""
+    seen = set()
+    n = 0
+    for it in c.items:
+        for l in it.lines:
+            sk = l.tmpl.skeleton().lstrip()
+            if not sk.startswith("def "):
+                continue
+            fn = l.site[0].split("::")[-1]
+            if fn.split(".")[-1] in MAIN_DEF_SITES:
+                continue
+            name_part = l.tmpl.show().split("(", 1)[0]
+            key = (l.site[0], name_part)
+            if key in seen:
+                continue
+            seen.add(key)
+            n += 1
+            fresh = any((not isinstance(h, str)) and ("random_hex" in show(h.val) or "uuid" in show(h.val))
+                        for h in l.tmpl.parts[: max(1, next((i for i, x in enumerate(l.tmpl.parts) if isinstance(x, str) and "(" in x), len(l.tmpl.parts)) + 1)])
+            if fresh:
+                rep.ok("R13.9", f"{fn}: helper `{name_part}` carries a per-compilation token", None)
+            else:
+                rep.violation("R13.9", l.site[0], f"helper definition `{name_part}` has no per-compilation token",
+                              "compiling the same class for another dialect / format overwrites this helper on the shared holder: methods compiled earlier then run the later dialect's "
+                              "conversions (to_dict() after to_dict(dialect=D) serialises union members with D)", loc=f"{l.site[0]}:{l.site[1]}")
+    rep.floor("R13.9", 15)
 
 
 def _merge(repo: Repo, rep: Report) -> None:
